@@ -622,14 +622,31 @@ def ch_deliver(ex, g, fid, args):
 @exact_if("channel", "(*" + CH + "Channel).RemoteKey")
 def ch_remotekey(ex, g, fid, args):
     st = chan_state(ex, args[0])
-    if st["key"] is None:
-        st["key"] = ex.havoc(8, "rk")
     rt = ex.types[ex.funcs[fid]["sig"]]["results"]
-    key = ex.zero(rt[0])
-    algo = harness_global(ex, ".vAlgo")
-    key[0] = algo if algo is not None else key[0]
-    key[1] = Slice([st["key"]], 0, 1, 1)
-    return key
+
+    def mk():
+        key = ex.zero(rt[0])
+        algo = harness_global(ex, ".vAlgo")
+        key[0] = algo if algo is not None else key[0]
+        key[1] = Slice([st["key"]], 0, 1, 1)
+        return key
+
+    if st["key"] is not None:
+        return mk()
+    st["key"] = ex.havoc(8, "rk")
+    # Channel contract (C05): the channel's remote key satisfies the AcceptKey predicate it was given
+    cfg = st["cfg"]
+    if cfg is None:
+        return mk()
+    t = ex.types[ex.funcs[CH + "NewChannel"]["params"][0]]
+    fi = [n for n, f in enumerate(t["fields"]) if f["name"] == "AcceptKey"][0]
+    clo = cfg[fi]
+
+    def then(res):
+        ex.assume(res)
+        return mk()
+
+    return CallReq(clo, [Ptr([mk()], 0)], then)
 
 
 @exact_if("channel", "(*" + CH + "Channel).WaitReady")
